@@ -93,36 +93,63 @@ Proof.
 Qed.
 
 (* ================================================================== C05: what acceptance means *)
+(* the commitment an iteration contributes: nothing for a skipped output *)
+Definition oc2g (o : option gel) : gel := match o with Some c => c | None => gzero end.
+Lemma gsum_out_commits l : geq (gsum (out_commits l)) (gsum (map oc2g l)).
+Proof.
+  induction l as [|[c|] l IH]; cbn [out_commits flat_map map app oc2g]; [reflexivity| |]; fold (out_commits l).
+  - change (geq (gadd c (gsum (out_commits l))) (gadd c (gsum (map oc2g l)))). now rewrite IH.
+  - exact IH.
+Qed.
+Lemma out_commits_somes cs : out_commits (map Some cs) = cs.
+Proof. induction cs as [|c cs IH]; cbn [map out_commits flat_map app]; [reflexivity|]. fold (out_commits (map Some cs)). now rewrite IH. Qed.
+Lemma skipped_spec o : skipped o = true <-> o_value o = VExp 0 /\ is_provably_unspendable (o_script o) = true.
+Proof.
+  unfold skipped, get_value_commit. destruct (o_value o) as [|v|c]; try (split; [discriminate|intros [H _]; discriminate H]).
+  destruct (Z.eqb_spec v 0) as [->|NZ].
+  - destruct (is_provably_unspendable (o_script o)); split; try discriminate; auto. intros [_ H]. discriminate H.
+  - split.
+    + unfold get_asset_gen. destruct (o_asset o); cbn [obind]; try discriminate; unfold pedersen_unblinded; destruct (geqb _ gzero); discriminate.
+    + intros [E _]. congruence.
+Qed.
+Lemma skipped_same o o' : o_value o' = o_value o -> o_script o' = o_script o -> skipped o' = skipped o.
+Proof.
+  intros V S. destruct (skipped o) eqn:E.
+  - apply skipped_spec. apply skipped_spec in E. now rewrite V, S.
+  - destruct (skipped o') eqn:E'; [|reflexivity]. apply skipped_spec in E'. rewrite V, S in E'. apply skipped_spec in E'. congruence.
+Qed.
+Lemma skipped_conf o c : o_value o = VConf c -> skipped o = false.
+Proof. intro V. destruct (skipped o) eqn:E; [|reflexivity]. apply skipped_spec in E as [E _]. congruence. Qed.
 Lemma verify_ok_inv T spent : verify_tx_amt_proofs T spent = OVal tt <->
   length spent = length (t_in T) /\ exists dom coms ocoms,
-    verify_inputs (t_in T) spent 0 = OVal (dom, coms) /\ verify_outputs dom (t_out T) 0 = OVal ocoms /\ geq (gsum coms) (gsum ocoms).
+    verify_inputs (t_in T) spent 0 = OVal (dom, coms) /\ verify_outputs dom (t_out T) 0 = OVal ocoms /\ geq (gsum coms) (gsum (map oc2g ocoms)).
 Proof.
   unfold verify_tx_amt_proofs. split.
   - destruct (Nat.eqb_spec (length spent) (length (t_in T))) as [L|L]; cbn [negb]; [|discriminate].
     destruct (verify_inputs (t_in T) spent 0) as [[dom coms]| |] eqn:VI; cbn [obind]; try discriminate.
     destruct (verify_outputs dom (t_out T) 0) as [ocoms| |] eqn:VO; cbn [obind]; try discriminate.
-    unfold verify_commitments_sum_to_equal. destruct (geqb (gsum coms) (gsum ocoms)) eqn:B; cbn [negb]; [|discriminate].
-    intros _. split; [exact L|]. exists dom, coms, ocoms. split; [reflexivity|]. split; [exact VO|]. now apply geqb_spec.
+    unfold verify_commitments_sum_to_equal. destruct (geqb (gsum coms) (gsum (out_commits ocoms))) eqn:B; cbn [negb]; [|discriminate].
+    intros _. split; [exact L|]. exists dom, coms, ocoms. split; [reflexivity|]. split; [exact VO|]. apply geqb_spec in B. now rewrite B, gsum_out_commits.
   - intros (L & dom & coms & ocoms & -> & VO & B). rewrite L, Nat.eqb_refl. cbn [negb obind]. rewrite VO. cbn [obind].
-    unfold verify_commitments_sum_to_equal. apply geqb_spec in B. rewrite B. reflexivity.
+    unfold verify_commitments_sum_to_equal. rewrite <- gsum_out_commits in B. apply geqb_spec in B. rewrite B. reflexivity.
 Qed.
 Theorem verify_len_mismatch T spent : length spent <> length (t_in T) -> verify_tx_amt_proofs T spent = OFail UtxoInputLenMismatch.
 Proof. intro L. unfold verify_tx_amt_proofs. destruct (Nat.eqb_spec (length spent) (length (t_in T))); [contradiction|reflexivity]. Qed.
 
 (* per-output view of the second loop *)
 Lemma verify_outputs_nth dom : forall outs k cs, verify_outputs dom outs k = OVal cs ->
-  length cs = length outs /\ forall j o, nth_error outs j = Some o -> exists c, verify_output dom (k + j) o = OVal c /\ nth_error cs j = Some c.
+  length cs = length outs /\ forall j o, nth_error outs j = Some o -> exists c, verify_output_step dom (k + j) o = OVal c /\ nth_error cs j = Some c.
 Proof.
   induction outs as [|o outs IH]; intros k cs; cbn [verify_outputs].
   - intros [= <-]. split; [reflexivity|]. intros [|j] ? H; discriminate H.
-  - destruct (verify_output dom k o) as [c| |] eqn:V; cbn [obind]; try discriminate.
+  - destruct (verify_output_step dom k o) as [c| |] eqn:V; cbn [obind]; try discriminate.
     destruct (verify_outputs dom outs (S k)) as [cs'| |] eqn:R; cbn [obind]; try discriminate. intros [= <-].
     destruct (IH _ _ R) as [L N]. split; [cbn; congruence|]. intros [|j] o' NE; cbn [nth_error] in *.
     + injection NE as <-. exists c. rewrite Nat.add_0_r. auto.
     + destruct (N _ _ NE) as (c' & V' & NC). exists c'. split; [|exact NC]. replace (k + S j)%nat with (S k + j)%nat by lia. exact V'.
 Qed.
 Lemma verify_outputs_all dom : forall outs k cs, length cs = length outs ->
-  (forall j o, nth_error outs j = Some o -> exists c, verify_output dom (k + j) o = OVal c /\ nth_error cs j = Some c) ->
+  (forall j o, nth_error outs j = Some o -> exists c, verify_output_step dom (k + j) o = OVal c /\ nth_error cs j = Some c) ->
   verify_outputs dom outs k = OVal cs.
 Proof.
   induction outs as [|o outs IH]; intros k [|c cs] L H; cbn in L; try discriminate; cbn [verify_outputs]. - reflexivity.
@@ -254,20 +281,32 @@ Proof.
     split; [exact GV0|]. split; [unfold scommit, sgen; cbn; now rewrite C, G|]. split; [intros v' E; congruence|].
     intros a0 A0. unfold get_asset_gen in GA. rewrite A0 in GA. injection GA as <-. cbn. symmetry. now apply (gH_asset_gen_eq a0 a abf).
 Qed.
+(* a skipped output (explicit zero amount on a provably unspendable script) is opened by the zero secrets *)
+Definition out_opened_step (o : txout) (oc : option gel) (s : secrets) : Prop :=
+  match oc with Some c => out_opened o c s | None => skipped o = true /\ s = mkSec 0 0 0 0 end.
+Lemma scommit_zero : geq gzero (scommit (mkSec 0 0 0 0)).
+Proof. intro k. unfold scommit. rewrite coeff_commit, coeff_zero. cbn [s_value s_vbf]. unfold zadd, zmul. destruct (N.eqb k kG); reflexivity. Qed.
 Lemma outputs_opening dom : Forall opened_gen dom -> forall outs k cs, verify_outputs dom outs k = OVal cs ->
   Forall (fun o => forall v, o_value o = VExp v -> u64 v) outs ->
-  exists os, Forall2 (fun oc s => out_opened (fst oc) (snd oc) s) (combine outs cs) os /\ length os = length outs
-             /\ Forall (fun s => u64 (s_value s)) os /\ Forall2 geq cs (map scommit os) /\ Forall (proofs_for dom) outs.
+  exists os, Forall2 (fun oc s => out_opened_step (fst oc) (snd oc) s) (combine outs cs) os /\ length os = length outs
+             /\ Forall (fun s => u64 (s_value s)) os /\ Forall2 geq (map oc2g cs) (map scommit os)
+             /\ Forall (fun o => skipped o = false -> proofs_for dom o) outs.
 Proof.
   intros D. induction outs as [|o outs IH]; intros k cs V U; cbn [verify_outputs] in V.
   - injection V as <-. exists []. repeat split; constructor.
-  - destruct (verify_output dom k o) as [c| |] eqn:VO; cbn [obind] in V; try discriminate.
-    destruct (verify_outputs dom outs (S k)) as [cs'| |] eqn:VR; cbn [obind] in V; try discriminate. injection V as <-.
-    inversion U as [|? ? Uo Ur]; subst.
-    destruct (output_opening _ _ _ _ D VO Uo) as (s & O & Us). destruct (IH _ _ VR Ur) as (os & F & L & FU & FC & PF).
-    exists (s :: os). cbn [combine map length]. split; [constructor; assumption|]. split; [congruence|]. split; [constructor; assumption|].
-    split; [constructor; [apply O|assumption]|]. constructor; [|assumption].
-    destruct (verify_output_inv _ _ _ _ VO) as (_ & RP & SP). split; assumption.
+  - unfold verify_output_step in V. destruct (skipped o) eqn:SK.
+    + cbn [obind] in V. destruct (verify_outputs dom outs (S k)) as [cs'| |] eqn:VR; cbn [obind] in V; try discriminate. injection V as <-.
+      inversion U as [|? ? Uo Ur]; subst. destruct (IH _ _ VR Ur) as (os & F & L & FU & FC & PF).
+      exists (mkSec 0 0 0 0 :: os). cbn [combine map length oc2g]. split; [constructor; [split; [exact SK|reflexivity]|assumption]|]. split; [congruence|].
+      split; [constructor; [cbn; unfold u64; lia|assumption]|]. split; [constructor; [apply scommit_zero|assumption]|].
+      constructor; [congruence|assumption].
+    + destruct (verify_output dom k o) as [c| |] eqn:VO; cbn [obind] in V; try discriminate.
+      destruct (verify_outputs dom outs (S k)) as [cs'| |] eqn:VR; cbn [obind] in V; try discriminate. injection V as <-.
+      inversion U as [|? ? Uo Ur]; subst.
+      destruct (output_opening _ _ _ _ D VO Uo) as (s & O & Us). destruct (IH _ _ VR Ur) as (os & F & L & FU & FC & PF).
+      exists (s :: os). cbn [combine map length oc2g]. split; [constructor; assumption|]. split; [congruence|]. split; [constructor; assumption|].
+      split; [constructor; [apply O|assumption]|]. constructor; [|assumption]. intros _.
+      destruct (verify_output_inv _ _ _ _ VO) as (_ & RP & SP). split; assumption.
 Qed.
 
 Theorem verify_sound T spent ss :
@@ -276,16 +315,16 @@ Theorem verify_sound T spent ss :
   Z.of_nat (length ss) * 2 ^ 64 < qn -> Z.of_nat (length (t_out T)) * 2 ^ 64 < qn ->
   exists dom coms ocoms os,
     verify_inputs (t_in T) spent 0 = OVal (dom, coms) /\ verify_outputs dom (t_out T) 0 = OVal ocoms
-    /\ Forall2 (fun oc s => out_opened (fst oc) (snd oc) s) (combine (t_out T) ocoms) os /\ length os = length (t_out T)
+    /\ Forall2 (fun oc s => out_opened_step (fst oc) (snd oc) s) (combine (t_out T) ocoms) os /\ length os = length (t_out T)
     /\ Forall (fun s => u64 (s_value s)) os
     /\ (forall b, asset_total b ss = asset_total b os)                 (* integer balance per asset *)
-    /\ Forall (proofs_for dom) (t_out T).
+    /\ Forall (fun o => skipped o = false -> proofs_for dom o) (t_out T).
 Proof.
   intros V OP US UO BS BO. apply verify_ok_inv in V as (L & dom & coms & ocoms & VI & VO & B).
   destruct (verify_inputs_ok _ _ _ OP 0%nat) as (dom' & coms' & VI' & D & C). rewrite VI in VI'. injection VI' as <- <-.
   destruct (outputs_opening dom (dom_opened _ _ D) _ _ _ VO UO) as (os & F & LO & FU & FC & PF).
   exists dom, coms, ocoms, os. repeat split; try assumption.
-  intro b. pose proof (B (kH b)) as Hb. rewrite (coeff_gsum_geq coms ss _ C), (coeff_gsum_geq ocoms os _ FC), !zsum_H_total in Hb.
+  intro b. pose proof (B (kH b)) as Hb. rewrite (coeff_gsum_geq coms ss _ C), (coeff_gsum_geq (map oc2g ocoms) os _ FC), !zsum_H_total in Hb.
   pose proof (asset_total_bound b ss US). pose proof (asset_total_bound b os FU). rewrite LO in *.
   rewrite !Z.mod_small in Hb by lia. exact Hb.
 Qed.
@@ -309,9 +348,6 @@ Definition explicit_out_total (b : N) (outs : list txout) : Z := asset_total b (
 (* the property's rule: an explicit zero amount is admissible only on a provably unspendable script *)
 Definition zero_value_rule (T : tx) : Prop :=
   Forall (fun o => o_value o = VExp 0 -> is_provably_unspendable (o_script o) = true) (t_out T).
-(* finding F13: the class of transactions on which the code deviates — an explicit zero amount on a provably unspendable script *)
-Definition known_F13 (T : tx) : bool :=
-  existsb (fun o => match o_value o with VExp 0 => is_provably_unspendable (o_script o) | _ => false end) (t_out T).
 
 Lemma qn_u64 v : 0 < v < 2 ^ 64 -> 0 < v < qn.
 Proof. pose proof qn_big. intros [A B]. split; [assumption|]. apply Z.lt_trans with (2 ^ 255); [|assumption]. eapply Z.lt_trans; [exact B|reflexivity]. Qed.
@@ -336,17 +372,24 @@ Proof.
     + destruct IA as [->|(x & -> & X)]; repeat constructor; cbn; unfold u64; lia.
     + destruct IK as [->|(x & -> & X)]; repeat constructor; cbn; unfold u64; lia.
 Qed.
-(* the output loop on explicit outputs with non-zero amounts *)
-Lemma verify_outputs_explicit dom : forall outs k, Forall explicit_out outs -> Forall (fun o => o_value o <> VExp 0) outs ->
-  exists cs, verify_outputs dom outs k = OVal cs /\ Forall2 geq cs (map scommit (map explicit_secret outs)).
+(* the output loop on explicit outputs obeying the zero-value rule: zero amounts (on provably unspendable scripts) are skipped *)
+Lemma scommit_zero_a a : geq gzero (scommit (mkSec a 0 0 0)).
+Proof. intro k. unfold scommit. rewrite coeff_commit, coeff_zero. cbn [s_value s_vbf]. unfold zadd, zmul. destruct (N.eqb k kG); reflexivity. Qed.
+Lemma verify_outputs_explicit dom : forall outs k, Forall explicit_out outs ->
+  Forall (fun o => o_value o = VExp 0 -> is_provably_unspendable (o_script o) = true) outs ->
+  exists cs, verify_outputs dom outs k = OVal cs /\ Forall2 geq (map oc2g cs) (map scommit (map explicit_secret outs)).
 Proof.
   induction outs as [|o outs IH]; intros k FE FN; cbn [verify_outputs map]. - exists []. split; constructor.
   - inversion FE as [|? ? (a & v & A & V & R) FE']; subst. inversion FN as [|? ? NZ FN']; subst.
-    destruct (IH (S k) FE' FN') as (cs & -> & C).
-    assert (VP : 0 < v < qn). { apply qn_u64. rewrite V in NZ. assert (v <> 0) by congruence. lia. }
-    unfold verify_output, get_value_commit, get_asset_gen, explicit_secret. rewrite V, A.
-    destruct (Z.eqb_spec v 0) as [Z0|_]; [lia|]. cbn [obind map_err]. rewrite pedersen_unblinded_H by exact VP. cbn [obind].
-    eexists. split; [reflexivity|]. constructor; [apply scommit_iss|exact C].
+    destruct (IH (S k) FE' FN') as (cs & -> & C). unfold verify_output_step, explicit_secret. rewrite A, V.
+    destruct (Z.eq_dec v 0) as [->|NV].
+    + assert (SK : skipped o = true) by (apply skipped_spec; split; [exact V|now apply NZ]). rewrite SK. cbn [obind].
+      eexists. split; [reflexivity|]. cbn [map oc2g]. constructor; [apply scommit_zero_a|exact C].
+    + assert (SK : skipped o = false). { destruct (skipped o) eqn:E; [|reflexivity]. apply skipped_spec in E as [E _]. congruence. } rewrite SK.
+      assert (VP : 0 < v < qn) by (apply qn_u64; lia).
+      unfold verify_output, get_value_commit, get_asset_gen. rewrite V, A.
+      destruct (Z.eqb_spec v 0) as [Z0|_]; [lia|]. cbn [obind map_err]. rewrite pedersen_unblinded_H by exact VP. cbn [obind].
+      eexists. split; [reflexivity|]. cbn [map oc2g]. constructor; [apply scommit_iss|exact C].
 Qed.
 Lemma explicit_G l : Forall (fun s => s_abf s = 0 /\ s_vbf s = 0) l -> zsum (map (fun s => coeff (scommit s) kG) l) = 0.
 Proof.
@@ -365,27 +408,31 @@ Proof. induction 1 as [|x l [H _] F IH]; constructor; assumption. Qed.
 Lemma Forall_and_r {A} (P Q : A -> Prop) l : Forall (fun x => P x /\ Q x) l -> Forall Q l.
 Proof. induction 1 as [|x l [_ H] F IH]; constructor; assumption. Qed.
 
-(* an all-explicit transaction is accepted exactly when the spent list has the right length, all output amounts are
-   non-zero and every asset balances as integers *)
-Theorem explicit_iff_model T spent :
+(* an all-explicit transaction is accepted exactly when the spent list has the right length, zero amounts occur only on
+   provably unspendable scripts, and every asset balances as integers — the property's own characterisation.
+   A zero amount on a SPENDABLE script is still rejected: get_value_commit answers NonUnspendableZeroValue for it, which the
+   output loop reports as SpentTxOutError(i, NonUnspendableZeroValue); only ZeroValueCommitment is skipped. *)
+Theorem explicit_iff T spent :
   all_explicit T spent ->
   Z.of_nat (length (input_secrets (t_in T) spent)) * 2 ^ 64 < qn -> Z.of_nat (length (t_out T)) * 2 ^ 64 < qn ->
   (verify_tx_amt_proofs T spent = OVal tt <->
-   length spent = length (t_in T) /\ Forall (fun o => o_value o <> VExp 0) (t_out T)
+   length spent = length (t_in T) /\ zero_value_rule T
    /\ forall b, asset_total b (input_secrets (t_in T) spent) = explicit_out_total b (t_out T)).
 Proof.
   intros (FS & FI & FO) BS BO. split.
   - intro V. pose proof V as V0. apply verify_ok_inv in V as (L & dom & coms & ocoms & VI & VO & B).
-    assert (NZ : Forall (fun o => o_value o <> VExp 0) (t_out T)).
+    assert (NZ : zero_value_rule T).
     { apply Forall_forall. intros o I Z0. apply In_nth_error in I as (j & NE).
-      destruct (verify_outputs_nth _ _ _ _ VO) as [_ N]. destruct (N j o NE) as (c & Vo & _).
-      destruct (verify_output_inv _ _ _ _ Vo) as (GV & _). unfold get_value_commit in GV. rewrite Z0 in GV. cbn in GV.
-      destruct (is_provably_unspendable (o_script o)); discriminate. }
+      destruct (verify_outputs_nth _ _ _ _ VO) as [_ N]. destruct (N j o NE) as (c & Vo & _). unfold verify_output_step in Vo.
+      destruct (skipped o) eqn:SK; [apply skipped_spec in SK; tauto|].
+      destruct (verify_output dom (0 + j) o) as [c0| |] eqn:Vo'; cbn [obind] in Vo; try discriminate.
+      destruct (verify_output_inv _ _ _ _ Vo') as (GV & _). unfold get_value_commit in GV. rewrite Z0 in GV. cbn in GV.
+      destruct (is_provably_unspendable (o_script o)); [reflexivity|discriminate]. }
     split; [exact L|]. split; [exact NZ|]. intro b.
     pose proof (explicit_opens _ _ L FS FI) as OP.
     destruct (verify_inputs_ok _ _ _ OP 0%nat) as (dom' & coms' & VI' & D & C). rewrite VI in VI'. injection VI' as <- <-.
     destruct (verify_outputs_explicit dom _ 0%nat FO NZ) as (cs & VO' & CS). rewrite VO in VO'. injection VO' as <-.
-    pose proof (B (kH b)) as Hb. rewrite (coeff_gsum_geq coms _ _ C), (coeff_gsum_geq ocoms _ _ CS), !zsum_H_total in Hb.
+    pose proof (B (kH b)) as Hb. rewrite (coeff_gsum_geq coms _ _ C), (coeff_gsum_geq (map oc2g ocoms) _ _ CS), !zsum_H_total in Hb.
     pose proof (asset_total_bound b _ (Forall_and_l _ _ _ (input_secrets_u64 _ _ FS FI))).
     pose proof (asset_total_bound b _ (Forall_and_l _ _ _ (out_secrets_props _ FO))). rewrite map_length in *.
     unfold explicit_out_total. rewrite !Z.mod_small in Hb by lia. exact Hb.
@@ -394,28 +441,30 @@ Proof.
     destruct (verify_inputs_ok _ _ _ OP 0%nat) as (dom & coms & VI & D & C).
     destruct (verify_outputs_explicit dom _ 0%nat FO NZ) as (cs & VO & CS).
     exists dom, coms, cs. split; [exact VI|]. split; [exact VO|]. intro k.
-    rewrite (coeff_gsum_geq coms _ _ C), (coeff_gsum_geq cs _ _ CS).
+    rewrite (coeff_gsum_geq coms _ _ C), (coeff_gsum_geq (map oc2g cs) _ _ CS).
     destruct (bkey_cases k) as [->|(b & ->)].
     + rewrite !explicit_G; [reflexivity| |].
       * apply (Forall_and_r _ _ _ (out_secrets_props _ FO)).
       * apply (Forall_and_r _ _ _ (input_secrets_u64 _ _ FS FI)).
     + rewrite !zsum_H_total. f_equal. apply BAL.
 Qed.
-
-Lemma known_F13_false T : known_F13 T = false ->
-  (zero_value_rule T <-> Forall (fun o => o_value o <> VExp 0) (t_out T)).
+(* the two ways an explicit zero amount is treated *)
+Lemma zero_value_unspendable_skipped o : o_value o = VExp 0 -> is_provably_unspendable (o_script o) = true -> skipped o = true.
+Proof. intros V U. now apply skipped_spec. Qed.
+Lemma zero_value_spendable_rejected dom k o : o_value o = VExp 0 -> is_provably_unspendable (o_script o) = false ->
+  verify_output_step dom k o = OFail (SpentTxOutError k NonUnspendableZeroValue).
 Proof.
-  unfold known_F13, zero_value_rule. intro K. rewrite !Forall_forall. split; intros H o I.
-  - intro Z0. specialize (H o I Z0).
-    assert (X : existsb (fun o => match o_value o with VExp 0 => is_provably_unspendable (o_script o) | _ => false end) (t_out T) = true).
-    { apply existsb_exists. exists o. split; [exact I|]. rewrite Z0. exact H. } congruence.
-  - intro Z0. exfalso. now apply (H o I).
+  intros V U. unfold verify_output_step. assert (SK : skipped o = false).
+  { destruct (skipped o) eqn:E; [|reflexivity]. apply skipped_spec in E as [_ E]. congruence. }
+  rewrite SK. unfold verify_output, get_value_commit. rewrite V. cbn. rewrite U. reflexivity.
 Qed.
-(* the property's characterisation, outside the F13 class *)
-Theorem explicit_iff T spent :
-  all_explicit T spent -> known_F13 T = false ->
-  Z.of_nat (length (input_secrets (t_in T) spent)) * 2 ^ 64 < qn -> Z.of_nat (length (t_out T)) * 2 ^ 64 < qn ->
-  (verify_tx_amt_proofs T spent = OVal tt <->
-   length spent = length (t_in T) /\ zero_value_rule T
-   /\ forall b, asset_total b (input_secrets (t_in T) spent) = explicit_out_total b (t_out T)).
-Proof. intros AE K BS BO. rewrite (explicit_iff_model T spent AE BS BO), (known_F13_false T K). reflexivity. Qed.
+Lemma skipped_nonzero o v : o_value o = VExp v -> v <> 0 -> skipped o = false.
+Proof. intros V NZ. destruct (skipped o) eqn:E; [|reflexivity]. apply skipped_spec in E as [E _]. congruence. Qed.
+Lemma step_live dom k o c : skipped o = false -> verify_output dom k o = OVal c -> verify_output_step dom k o = OVal (Some c).
+Proof. intros SK V. unfold verify_output_step. now rewrite SK, V. Qed.
+Lemma step_inv dom k o oc : verify_output_step dom k o = OVal oc ->
+  (skipped o = true /\ oc = None) \/ (skipped o = false /\ exists c, oc = Some c /\ verify_output dom k o = OVal c).
+Proof.
+  unfold verify_output_step. destruct (skipped o); [intros [= <-]; now left|].
+  destruct (verify_output dom k o) as [c| |]; cbn [obind]; try discriminate. intros [= <-]. right. split; [reflexivity|]. now exists c.
+Qed.
